@@ -355,11 +355,11 @@ func (l pyList) Operator(operator Operator, operand pyObject) pyObject {
 		l2, ok := operand.(pyList)
 		if !ok {
 			if l2, ok := operand.(pyFrozenList); ok {
-				return slices.Clip(append(l, l2.pyList...))
+				return slices.Clip(append(slices.Clip(l), l2.pyList...))
 			}
 			panic("Cannot add list and " + operand.Type())
 		}
-		return slices.Clip(append(l, l2...))
+		return slices.Clip(append(slices.Clip(l), l2...))
 	case In, NotIn:
 		for _, item := range l {
 			if item == operand {
